@@ -973,6 +973,7 @@ class Region:
             self._visit(self.body, ctx)
         self._thread_count_vars()
         self._propagate()
+        self._propagate_precise()
         self._classify()
         self._uniformity()
         self._barrier_order()
@@ -1394,6 +1395,123 @@ class Region:
                 return
         raise AnalysisError("%s: label propagation did not converge" % f.name)
 
+    # -- precise labels: does the value determine the worksharing variable? -------------------
+    _LOSSY_Q = ("/", ">>")
+    _LOSSY_R = ("%", "&")
+    _LOSSY_C = ("<", ">", "<=", ">=", "==", "!=", "&&", "||")
+
+    @staticmethod
+    def _mk_lossy(kind, labs):
+        return {lab if (isinstance(lab, tuple) and lab[0] in ("q", "r", "c")) else (kind, lab) for lab in labs}
+
+    def ptaint(self, e, ctx, skip=()):
+        """precise labels of an expression: (loop id, k) / TID if the value determines that worksharing
+        variable / the thread id (injective operations, table look-ups assumed injective), or ("q"|"r"|"c",
+        label) if it only depends on it through an integer quotient, a remainder, or a comparison"""
+        allowed = {l.id for l in ctx.ws}
+        return self._pt(e, allowed, set(skip))
+
+    def _pt(self, e, allowed, skip):
+        k = e.get("kind")
+        if k == "DeclRefExpr":
+            rd = e["referencedDecl"]
+            if rd.get("kind") == "FunctionDecl":
+                return {TID} if rd.get("name") == "omp_get_thread_num" else set()
+            if rd["id"] in skip:
+                return set()
+            out = set()
+            for lab in self.plabels.get(rd["id"], ()):
+                b = lab[1] if (isinstance(lab, tuple) and lab[0] in ("q", "r", "c")) else lab
+                if b == TID or (isinstance(b, tuple) and b[0] in allowed):
+                    out.add(lab)
+            return out
+        out = set()
+        ks = children(e)
+        if k == "BinaryOperator":
+            op = e.get("opcode")
+            inner = set()
+            for c in ks:
+                inner |= self._pt(c, allowed, skip)
+            integer = is_arith(qt(e)) and not re.search(r"double|float", qt(e))
+            if op in self._LOSSY_Q and integer:
+                return self._mk_lossy("q", inner)
+            if op in self._LOSSY_R:
+                return self._mk_lossy("r", inner)
+            if op in self._LOSSY_C:
+                return self._mk_lossy("c", inner)
+            return inner
+        if k == "ConditionalOperator" and len(ks) == 3:
+            return self._mk_lossy("c", self._pt(ks[0], allowed, skip)) | self._pt(ks[1], allowed, skip) | \
+                self._pt(ks[2], allowed, skip)
+        if k == "UnaryOperator" and e.get("opcode") == "!":
+            return self._mk_lossy("c", self._pt(ks[0], allowed, skip)) if ks else set()
+        for c in ks:
+            out |= self._pt(c, allowed, skip)
+        return out
+
+    def _propagate_precise(self):
+        self.plabels = {}
+        for loop in self.ws_loops:
+            for k_, iv in enumerate(loop.ivs):
+                self.plabels.setdefault(iv, set()).add((loop.id, k_))
+        f = self.func
+        for _ in range(50):
+            ch = False
+
+            def add(vid, labs):
+                nonlocal ch
+                if labs:
+                    cur = self.plabels.setdefault(vid, set())
+                    if not labs <= cur:
+                        cur |= labs
+                        ch = True
+
+            for vid, rhs, ctx in self.assign_ev:
+                add(vid, self.ptaint(rhs, ctx))
+            for node, lhs, rhs, ctx in self.store_ev:
+                if rhs is None:
+                    continue
+                labs = self.ptaint(rhs, ctx) | self.ptaint(lhs, ctx, skip=self._root_ids(lhs))
+                for o in f.objects(lhs):
+                    if o[0] == "var" and self.is_private_var(o[1], ctx):
+                        add(o[1], labs)
+            for node, ctx in self.call_ev:
+                names, _ = self.prog.call_targets(f, node)
+                args = kids(node)[1:]
+                labs = set()
+                for a in args:
+                    labs |= self.ptaint(a, ctx)
+                if not labs:
+                    continue
+                for nm in names:
+                    w, _, _ = self.prog.callee_effects(nm, args)
+                    for i in w:
+                        if i < len(args):
+                            for o in f.pts_expr(args[i]):
+                                if o[0] == "var" and self.is_private_var(o[1], ctx):
+                                    add(o[1], labs)
+            if not ch:
+                return
+        raise AnalysisError("%s: precise label propagation did not converge" % f.name)
+
+    def _lossy_only(self, pl, flat, ctx):
+        """worksharing variables that the address depends on only through a quotient / remainder / comparison
+        (several iterations -- possibly on different threads -- then share the address)"""
+        if TID in pl:
+            return []
+        out = []
+        for l in ctx.ws:
+            if l.id not in flat:
+                continue
+            for k_ in range(len(l.ivs)):
+                b = (l.id, k_)
+                if b in pl or (("q", b) in pl and ("r", b) in pl):
+                    continue
+                kinds = [kd for kd in ("q", "r", "c") if (kd, b) in pl]
+                if kinds:
+                    out.append((l.iv_names[k_], kinds[0]))
+        return out
+
     def _root_ids(self, lhs):
         l = strip(lhs)
         if l.get("kind") == "DeclRefExpr":
@@ -1457,9 +1575,11 @@ class Region:
         if g:
             return "guarded", g
         missing = []
+        lossy = []
         if depsets is None:
             labs = self.taint(expr, ctx)
             missing = self._missing_collapsed(labs, ctx)
+            lossy = self._lossy_only(self.ptaint(expr, ctx), labs, ctx)
         else:
             # callee stores: every store's address must depend on some thread-partitioned argument
             labs = set()
@@ -1474,12 +1594,24 @@ class Region:
                     labs = set()
                     break
                 missing = missing or self._missing_collapsed(ld, ctx)
+                pl = set()
+                for j in d:
+                    if j == "T":
+                        pl.add(TID)
+                    elif j < len(args):
+                        pl |= self.ptaint(args[j], ctx)
+                lossy = lossy or self._lossy_only(pl, ld, ctx)
                 labs |= ld
         if labs and missing:
             return "violation", ("the loops are collapsed, so one thread's unit of work is a tuple of (%s); the "
                                  "address does not depend on %s, so iterations that differ only in it run on "
                                  "different threads and hit the same location" % (
                                      ", ".join(n_ for l in ctx.ws for n_ in l.iv_names), ", ".join(missing)))
+        if labs and lossy and not missing:
+            how = {"q": "an integer quotient", "r": "a remainder", "c": "a comparison"}
+            return "violation", ("the address depends on the worksharing variable %s only through %s, so all the "
+                                 "iterations that share that value -- handed to different threads -- hit the same "
+                                 "location" % (lossy[0][0], how[lossy[0][1]]))
         if labs:
             names = []
             for lab in sorted(labs, key=str):
